@@ -1,5 +1,7 @@
 import ClusterVerif.Lemmas.C03
 import ClusterVerif.Lemmas.C03Sort
+import ClusterVerif.Lemmas.C03Pipeline
+import ClusterVerif.Lemmas.C03Block
 import ClusterVerif.Model.C03Skeleton
 import ClusterVerif.Gen.C03
 
@@ -128,6 +130,185 @@ private def ex1 : Input :=
 example : wf ex1 = true ∧ allocate ex1 = .ok [0, 3, 1] ∧ allowed ex1 (allocate ex1) = true ∧
     allowed ex1 (.ok [0, 3, 2]) = true ∧ allowed ex1 (.ok [0, 1, 2]) = false ∧ holds ex1 (.ok [0, 1, 2]) = false := by decide
 
+
+/-! ## Round 7 — from raw metric arrivals to the abstract input
+
+`Model/C03Pipeline.lean` transcribes `Store.Add`/`Window.Latest` → `Store.LatestValid` → `Monitor.LatestMetrics`
+(peerset filter) → classification → `SortNumeric`. The theorems below show the composition equals the abstract
+"peers with a metric state" input of `Model/C03.lean` (`rawInput`), so `allowed_holds` speaks about raw arrivals:
+several metrics per peer, any arrival order, metrics of other names, metrics from non-members. -/
+
+/-- The metrics `LatestMetrics` hands to allocate(), read as (peer, state), are exactly the healthy entries of the
+    abstract input computed from the raw arrivals — for every arrival list, every order of the store's map,
+    every peerset view. -/
+theorem pipeline_yields_states (order : List Nat) (arr : List RawMetric) (name : Nat) (view : PeersetView)
+    (desc : Bool) (rmin rmax : Int) (cur bl pri : List Nat) :
+    (latestMetrics order arr name view).map (fun m => (m.peer, m.state)) =
+      metrics (rawInput order arr name view desc rmin rmax cur bl pri) :=
+  pipeline_yields_states_aux order arr name view desc rmin rmax cur bl pri
+
+/-- …and the abstract input is well-formed (one entry per peer) whenever the store's map has one window per peer. -/
+theorem rawInput_wellformed (order : List Nat) (arr : List RawMetric) (name : Nat) (view : PeersetView)
+    (desc : Bool) (rmin rmax : Int) (cur bl pri : List Nat) (h : order.Nodup) :
+    wf (rawInput order arr name view desc rmin rmax cur bl pri) = true :=
+  rawInput_wf order arr name view desc rmin rmax cur bl pri h
+
+/-- C03 over raw inputs: every output the model admits on the input the raw arrivals stand for satisfies every
+    clause of the property. -/
+theorem allowed_holds_raw (order : List Nat) (arr : List RawMetric) (name : Nat) (view : PeersetView)
+    (desc : Bool) (rmin rmax : Int) (cur bl pri : List Nat) (o : Output) (h : order.Nodup)
+    (ha : allowed (rawInput order arr name view desc rmin rmax cur bl pri) o = true) :
+    holds (rawInput order arr name view desc rmin rmax cur bl pri) o = true :=
+  allowed_holds _ o (rawInput_wf order arr name view desc rmin rmax cur bl pri h) ha
+
+/-- Only the LAST arrival under (allocation metric's name, peer) decides a peer's state: a later metric replaces
+    an earlier one even if it expires sooner (out-of-order arrival), and arrivals of another name or peer change
+    nothing. -/
+theorem last_arrival_decides (arr : List RawMetric) (m : RawMetric) (name : Nat) (view : PeersetView) (p : Nat) :
+    stateOfRaw (arr ++ [m]) name view p =
+      if m.name = name ∧ m.peer = p then stateOfRaw [m] name view p else stateOfRaw arr name view p := by
+  unfold stateOfRaw
+  by_cases h : m.name = name ∧ m.peer = p
+  · obtain ⟨rfl, rfl⟩ := h
+    have : windowLatest [m] m.name m.peer = some m := by simpa using windowLatest_append_same [] m
+    rw [windowLatest_append_same, this]; simp
+  · rw [windowLatest_append_other arr m name p h, if_neg h]
+
+/-- A peer outside the peerset, or any peer when the peerset provider fails, has no metric state at all. -/
+theorem non_member_absent (arr : List RawMetric) (name : Nat) (view : PeersetView) (p : Nat)
+    (h : view.admits p = false) : stateOfRaw arr name view p = .absent := by
+  simp [stateOfRaw, h]
+
+/-- `SortNumeric` re-tests `Discard()` and parses the value: on what `LatestMetrics` returned this keeps exactly the
+    model's `numerics` (valid numeric states). -/
+theorem sorter_sees_model_numerics (order : List Nat) (arr : List RawMetric) (name : Nat) (view : PeersetView)
+    (f : RawMetric → Bool) :
+    numericsRaw ((latestMetrics order arr name view).filter f) =
+      numerics (((latestMetrics order arr name view).filter f).map (fun m => (m.peer, m.state))) :=
+  numericsRaw_eq _ (fun _ hm => latestMetrics_not_discard (List.mem_of_mem_filter hm))
+
+/-! ### the classification switch: precedence as a theorem about the regenerated skeleton -/
+
+/-- blacklist > current holder > priority > candidate, for ALL overlaps of the three lists: the classifier the
+    translator read out of today's allocate() files every peer exactly as the model's split does. -/
+theorem classification_precedence (bl cur pri : List Nat) (p : Nat) :
+    classifyWith Gen.classifier bl cur pri p = classifySpec bl cur pri p := by
+  unfold classifySpec
+  by_cases h1 : bl.contains p = true <;> by_cases h2 : cur.contains p = true <;> by_cases h3 : pri.contains p = true <;>
+    simp [Gen.classifier, classifyWith, switchDest, Guard.eval, Which.sel, h1, h2, h3]
+
+/-- hence the model's three groups are the classes of the regenerated classifier -/
+theorem classification_groups (i : Input) :
+    curIds i = ((metrics i).filter (fun q => classifyWith Gen.classifier i.blacklist i.current i.priority q.1 == .current)).map (·.1) ∧
+    priM i = (metrics i).filter (fun q => classifyWith Gen.classifier i.blacklist i.current i.priority q.1 == .priority) ∧
+    candM i = (metrics i).filter (fun q => classifyWith Gen.classifier i.blacklist i.current i.priority q.1 == .candidate) := by
+  simp only [classification_precedence]
+  exact model_groups_are_classes i
+
+/-- a healthy current holder that the request also names in its priority list is a CURRENT holder (seeded C03f) -/
+theorem holder_named_in_priority_is_current (bl cur pri : List Nat) (p : Nat)
+    (hb : p ∉ bl) (hc : p ∈ cur) (_hp : p ∈ pri) : classifyWith Gen.classifier bl cur pri p = .current := by
+  rw [classification_precedence]; simp [classifySpec, hb, hc]
+
+/-- the fill order of seeded change C03f (current, priority, blacklist — later fills overwrite) is NOT the
+    precedence: the witness is a holder also named in the priority list -/
+theorem lookup_wrong_order_breaks_precedence :
+    ∃ bl cur pri p, classifyWith (.lookup [(.current, .current), (.priority, .priority), (.blacklist, .skip)] .candidate) bl cur pri p
+      ≠ classifySpec bl cur pri p := ⟨[], [1], [1], 1, by decide⟩
+
+/-- …whereas a lookup map filled priority, current, blacklist would be -/
+theorem lookup_right_order_is_precedence (bl cur pri : List Nat) (p : Nat) :
+    classifyWith (.lookup [(.priority, .priority), (.current, .current), (.blacklist, .skip)] .candidate) bl cur pri p
+      = classifySpec bl cur pri p := by
+  unfold classifySpec
+  by_cases h1 : p ∈ bl <;> by_cases h2 : p ∈ cur <;> by_cases h3 : p ∈ pri <;>
+    simp [classifyWith, Which.sel, List.find?, h1, h2, h3]
+
+/-! ### the numeric sorter: discard/parse structure and comparison, regenerated -/
+
+/-- today's `SortNumeric` skips discarded and unparsable metrics (base 10, 64 bits) and `Less` is the strict
+    order of the strategy -/
+theorem sort_shape_sound :
+    Gen.sortShape.skipDiscarded = true ∧ Gen.sortShape.skipUnparsable = true ∧
+    Gen.sortShape.base = 10 ∧ Gen.sortShape.bits = 64 ∧
+    ∀ desc x y, Gen.sortShape.less desc x y = if desc then decide (x > y) else decide (x < y) := by
+  refine ⟨rfl, rfl, rfl, rfl, ?_⟩
+  intro desc x y
+  cases desc <;> simp [SortShape.less, Gen.sortShape, Cmp.eval]
+
+/-- so whatever `sort.Sort` returns under that `Less` (no adjacent inversion) is in the model's strategy order
+    (`before`, ties in any order — what `isTopK` admits) -/
+theorem sorted_output_in_strategy_order (desc : Bool) (l : List Nat)
+    (h : noInversion (Gen.sortShape.less desc) l = true) :
+    (l.zip l.tail).all (fun (x, y) => before desc x y) = true :=
+  noInversion_before desc _ (fun x y => sort_shape_sound.2.2.2.2 desc x y) l h
+
+/-! ### BlockAllocate, adds, and Cluster.Pin's priority list: instances of the same relation -/
+
+/-- `BlockAllocate` consults allocate() with exactly the input the property reads off the request:
+    stored holders as current, nobody excluded, the request's UserAllocations as priority list. -/
+theorem blockAllocate_input (cfg : C04.Cfg) (pre : PinMap) (undef : Bool) (p : Pin) (ping chosen : List Nat) (ai : Input)
+    (h : (blockAllocate cfg pre undef p ping chosen).alloc = some ai) : ai = blockInput cfg pre undef p :=
+  blockAllocate_input_aux cfg pre undef p ping chosen ai h
+
+/-- hence every answer of `BlockAllocate` that the C03 relation admits satisfies every clause of C03 -/
+theorem blockAllocate_holds (cfg : C04.Cfg) (pre : PinMap) (undef : Bool) (p : Pin) (ping chosen : List Nat) (ai : Input)
+    (hcfg : (cfg.peers.map (·.1)).Nodup)
+    (h : (blockAllocate cfg pre undef p ping chosen).alloc = some ai) (ha : allowed ai (.ok chosen) = true) :
+    holds (blockInput cfg pre undef p) (.ok chosen) = true := by
+  have := blockAllocate_input cfg pre undef p ping chosen ai h
+  subst this
+  exact allowed_holds _ _ (by simp only [wf, blockInput]; exact decide_eq_true hcfg) ha
+
+/-- the allocation made for an add (`cid.Undef`, nothing stored): no current holders, nobody excluded -/
+theorem add_allocation_instance (cfg : C04.Cfg) (pre : PinMap) (p : Pin) (ping chosen : List Nat) (ai : Input)
+    (h : (blockAllocate cfg pre true p ping chosen).alloc = some ai) :
+    ai.current = [] ∧ ai.blacklist = [] ∧ ai.priority = p.opts.ualloc ∧ ai.peers = cfg.peers ∧
+    ai.rmin = C04.effRmin cfg p ∧ ai.rmax = C04.effRmax cfg p := by
+  have := blockAllocate_input cfg pre true p ping chosen ai h
+  subst this
+  simp [blockInput]
+
+/-- for a CID that is not pinned, `BlockAllocate` and `Cluster.pin` consult allocate() with the same input -/
+theorem block_and_pin_same_instance (cfg : C04.Cfg) (pre : PinMap) (p : Pin) (ping chosen : List Nat)
+    (habs : pre.get p.cid = none) (hty : p.type ≠ .metaT) (hal : p.allocs = []) (hfol : cfg.follower = false)
+    (hpos : 0 ≤ C04.effRmin cfg p) :
+    (blockAllocate cfg pre false p ping chosen).alloc = (C04.pinBody cfg pre p [] chosen).alloc :=
+  block_pin_same_aux cfg pre p ping chosen habs hty hal hfol hpos
+
+/-- `Cluster.pin` always hands allocate() a priority list that is a permutation of the request's
+    UserAllocations, the caller's blacklist, the stored allocations as current holders and the monitor's peers -/
+theorem pin_priority_is_user_allocations (cfg : C04.Cfg) (pre : PinMap) (p : Pin) (bl chosen : List Nat) (ai : Input)
+    (h : (C04.pinBody cfg pre p bl chosen).alloc = some ai) :
+    ai.priority.Perm p.opts.ualloc ∧ ai.blacklist = bl ∧
+    ai.current = ((pre.get p.cid).map (·.allocs)).getD [] ∧ ai.peers = cfg.peers ∧ ai.desc = cfg.desc :=
+  pin_priority_aux cfg pre p bl chosen ai h
+
+/-- with factor -1 `BlockAllocate` answers every peer that has a valid ping metric (the block destinations of
+    "everywhere"); the pin's allocation list stays empty (`allowed` on (-1,-1)) -/
+theorem blockAllocate_everywhere (cfg : C04.Cfg) (pre : PinMap) (undef : Bool) (p : Pin) (ping chosen : List Nat)
+    (hfol : cfg.follower = false) (hev : C04.effRmin cfg p = -1 ∧ C04.effRmax cfg p = -1)
+    (hexp : p.opts.expire.beforeNow = false)
+    (hty : C04.typeOk (if undef then none else pre.get p.cid) (C04.setupFactors cfg p) = true) :
+    (blockAllocate cfg pre undef p ping chosen).out = .ok ping :=
+  blockAllocate_everywhere_aux cfg pre undef p ping chosen hfol hev hexp hty
+
+/-! Non-vacuity of the raw pipeline: three metrics for peer 1 (the last one decides), a metric of another name, a
+    non-member, an out-of-order arrival (peer 2's later metric is already expired). -/
+private def exArr : List RawMetric :=
+  [ { name := 7, peer := 1, valid := true, expired := true, val := .num 9 },
+    { name := 7, peer := 2, valid := true, expired := false, val := .num 4 },
+    { name := 8, peer := 1, valid := false, expired := false, val := .text },
+    { name := 7, peer := 1, valid := true, expired := false, val := .num 3 },
+    { name := 7, peer := 5, valid := true, expired := false, val := .num 0 },
+    { name := 7, peer := 2, valid := true, expired := true, val := .num 1 },
+    { name := 7, peer := 3, valid := true, expired := false, val := .text } ]
+example :
+    (rawInput [3, 2, 1, 5] exArr 7 (.members [1, 2, 3]) false 1 2 [] [] []).peers =
+      [(3, .nonNumeric), (2, .expired), (1, .valid 3), (5, .absent)] ∧
+    (latestMetrics [3, 2, 1, 5] exArr 7 (.members [1, 2, 3])).map (·.peer) = [3, 1] ∧
+    allocate (rawInput [3, 2, 1, 5] exArr 7 (.members [1, 2, 3]) false 1 2 [] [] []) = .ok [1] := by decide
+
 /-! ### The source still reads as the model was transcribed (regenerated on every run) -/
 
 theorem gen_allocate_skeleton : Gen.allocateSkeleton = Expected.allocateSkeleton := by rfl
@@ -136,5 +317,13 @@ theorem gen_obtain_skeleton : Gen.obtainSkeleton = Expected.obtainSkeleton := by
 theorem gen_valid_skeleton : Gen.validSkeleton = Expected.validSkeleton := by rfl
 theorem gen_allocators : Gen.ascendAllocate = Expected.ascendAllocate ∧ Gen.descendAllocate = Expected.descendAllocate ∧
     Gen.sortNumeric = Expected.sortNumeric ∧ Gen.sorterLess = Expected.sorterLess := ⟨rfl, rfl, rfl, rfl⟩
+
+theorem gen_pipeline_source :
+    Gen.storeAdd = Expected.storeAdd ∧ Gen.storeLatestValid = Expected.storeLatestValid ∧
+    Gen.peersetFilter = Expected.peersetFilter ∧ Gen.monLatestMetrics = Expected.monLatestMetrics ∧
+    Gen.windowAdd = Expected.windowAdd ∧ Gen.windowLatest = Expected.windowLatest ∧
+    Gen.metricDiscard = Expected.metricDiscard ∧ Gen.metricExpired = Expected.metricExpired := ⟨rfl, rfl, rfl, rfl, rfl, rfl, rfl, rfl⟩
+theorem gen_block_allocate_source : Gen.blockAllocate = Expected.blockAllocate := rfl
+theorem gen_call_sites : Gen.obtainCall = Expected.obtainCall ∧ Gen.pinAllocateCall = Expected.pinAllocateCall := ⟨rfl, rfl⟩
 
 end CV.C03
